@@ -840,13 +840,30 @@ class GenFunctions(object):
         # Create additional functions needed for wrapping
         ordered_functions = []
         for method in functions:
+            if method.template_arguments:
+                # Instantiate first: the variants for default arguments
+                # are made from each instantiation.
+                method._overloaded = True
+                ordered_functions.append(method)
+                instances = []
+                self.template_function(method, instances)
+                for new in instances:
+                    start = len(ordered_functions)
+                    if new._has_default_arg:
+                        self.has_default_args(new, ordered_functions)
+                    ordered_functions.append(new)
+                    variants = ordered_functions[start:]
+                    if len(variants) > 1:
+                        # Instantiations are not part of the search for
+                        # overloads below, name the variants here.
+                        for i, function in enumerate(variants):
+                            if not function.fmtdict.inlocal("function_suffix"):
+                                function.fmtdict.function_suffix = "_{}".format(i)
+                continue
             if method._has_default_arg:
                 self.has_default_args(method, ordered_functions)
             ordered_functions.append(method)
-            if method.template_arguments:
-                method._overloaded = True
-                self.template_function(method, ordered_functions)
-            elif method.have_template_args:
+            if method.have_template_args:
                 # have_template_args is True if result/argument is templated.
                 #                method._overloaded = True
                 self.template_function2(method, ordered_functions)
